@@ -165,6 +165,7 @@ def oracle_c03(case, obs):
         if rec["style"] == "remote" or h not in acts:
             continue
         st = acts[h]
+        finished_inside = [x for x in st[8] if x[0] == "finish_again" and x[1] == h]
         starts = [m for m in msgs if m.get("f19") == h and m.get("action_status") == "started"]
         if len(starts) != 1:
             return "action %d logged %d start messages" % (h, len(starts))
@@ -174,10 +175,17 @@ def oracle_c03(case, obs):
         if e.get("action_type") != s.get("action_type"):
             return "action %d end message has another action_type" % h
         failed = rec["exc"] is not None
+        if finished_inside:
+            # finish() was called explicitly inside the block: that call decides the end message
+            fin_exc = finished_inside[0][2]
+            if (e["action_status"] == "failed") != (fin_exc is not None):
+                return "action %d: finish(%s) inside the block but end status is %r" % (h, "exc" if fin_exc else "", e["action_status"])
+            continue
         if (e["action_status"] == "failed") != failed:
             return "action %d: body %s but end status is %r" % (h, "raised" if failed else "returned", e["action_status"])
-        start_keys = {progs.key_name(k) for k, _ in st[5]} - {"f19"}
-        succ_keys = {progs.key_name(k) for k, _ in st[7]}
+        # application fields only: reserved names used as field names are overwritten by the library
+        start_keys = {progs.key_name(k) for k, _ in st[5] if k >= 20}
+        succ_keys = {progs.key_name(k) for k, _ in st[7] if k >= 19}
         if start_keys & set(e):
             return "action %d: start fields %r on the end message" % (h, sorted(start_keys & set(e)))
         if succ_keys & set(s) - {"f19"}:
@@ -197,18 +205,23 @@ def oracle_c03(case, obs):
             extra = {k for k in e if k.startswith("f") and 40 <= int(k[1:]) < 46}
             if ext is not None and ext[0] == "fields":
                 for k, v in ext[1]:
+                    if k < 20:
+                        continue
                     if progs.canon_value(e.get(progs.key_name(k), None)) != progs.canon_value(progs.py_value(v)) \
                             and not progs.is_hostile_atom(v.get("a", 0)):
                         return "action %d: extractor field %s missing or wrong on the failed end" % (h, progs.key_name(k))
-                if extra != {progs.key_name(k) for k, _ in ext[1]}:
+                if extra != {progs.key_name(k) for k, _ in ext[1] if k >= 20}:
                     return "action %d: extractor fields %r, expected those of the nearest registered class" % (h, sorted(extra))
             elif extra:
                 return "action %d: unexpected extractor fields %r" % (h, sorted(extra))
         else:
-            if "exception" in e or "reason" in e:
+            own = {progs.key_name(k) for k, _ in st[7]}
+            if ("exception" in e and "exception" not in own) or ("reason" in e and "reason" not in own):
                 return "action %d succeeded but its end message has exception/reason" % h
             if st[6] is None:    # untyped: success field values arrive unchanged
                 for k, v in st[7]:
+                    if k < 19:
+                        continue
                     if progs.is_hostile_atom(v.get("a", 0)):
                         continue
                     if progs.canon_value(e.get(progs.key_name(k))) != progs.canon_value(progs.py_value(v)):
